@@ -159,6 +159,37 @@ pub fn run_property(id: &str, tier: Tier, only_sub: Option<String>) -> i32 {
         reports.push(rep);
     }
 
+    // 3b. libFuzzer campaign statistics and artifacts handed over by ./check (thorough tier of C10/C11/C13/C19)
+    let mut fuzz_json: Value = Value::Null;
+    let mut fuzz_execs = 0u64;
+    if let Ok(p) = std::env::var("VERIF_FUZZ_STATS") {
+        if let Ok(txt) = std::fs::read_to_string(&p) {
+            if let Ok(v) = serde_json::from_str::<Value>(&txt) {
+                fuzz_execs = v["executions"].as_u64().unwrap_or(0);
+                let target = v["target"].as_str().unwrap_or("").to_string();
+                let fsub = subs.iter().find(|s| s.name().ends_with(".fuzz_bytes"));
+                if let (Some(dir), Some(fsub)) = (v["artifact_dir"].as_str(), fsub) {
+                    let mut files: Vec<_> = std::fs::read_dir(dir).map(|d| d.filter_map(|e| e.ok()).map(|e| e.path()).collect()).unwrap_or_else(|_| vec![]);
+                    files.sort();
+                    for f in files {
+                        let Ok(bytes) = std::fs::read(&f) else { continue };
+                        let case = json!({"target": target, "hex": crate::props::fuzzsub::to_hex(&bytes)});
+                        match fsub.replay(&case) {
+                            Ok(_) => eprintln!("note: libFuzzer artifact {} does not reproduce through the hv oracle (fuzz-build only, e.g. a timeout or OOM)", f.display()),
+                            Err(m) if m.starts_with("INCONCLUSIVE") => eprintln!("note: artifact {}: {}", f.display(), m),
+                            Err(m) => {
+                                let fl = Failure { subcheck: fsub.name().to_string(), case, debug: format!("libFuzzer artifact {:?}", String::from_utf8_lossy(&bytes)), message: m.clone(), seed, kind: "violation" };
+                                let rp = write_replay(id, &fl);
+                                violations.push((rp, format!("{} (libFuzzer artifact): {}", fsub.name(), m)));
+                            }
+                        }
+                    }
+                }
+                fuzz_json = v;
+            }
+        }
+    }
+
     let mut aborts = 0;
     for r in &reports {
         // one violation line per sub-check (the smallest reproduction)
@@ -174,7 +205,7 @@ pub fn run_property(id: &str, tier: Tier, only_sub: Option<String>) -> i32 {
     }
 
     // 4. evidence
-    let evaluations: u64 = reports.iter().map(|r| r.evaluations).sum::<u64>() + regressions_replayed;
+    let evaluations: u64 = reports.iter().map(|r| r.evaluations).sum::<u64>() + regressions_replayed + fuzz_execs;
     let distinct: u64 = reports.iter().map(|r| r.distinct_nontrivial_hashes.len() as u64).sum();
     let capped = reports.iter().any(|r| r.distinct_capped);
     let mut samples: Vec<Value> = vec![];
@@ -227,6 +258,7 @@ pub fn run_property(id: &str, tier: Tier, only_sub: Option<String>) -> i32 {
             "regressions_excluded_by_open_finding": excluded_regressions,
             "excluded_known": excluded_total,
             "known_findings": known_lines,
+            "libfuzzer_campaign": fuzz_json,
             "shards": SHARDS,
             "scale": scale,
         },
